@@ -33,3 +33,5 @@ def run(ck):
     strings.decimal_arm(ck, "C01.R8")
     carriers.wrap_rule(ck, "C03.R1", "C03.R3")              # the wrap clause for every carrier
     fresh.no_hidden_state(ck, "C20.R8")                  # results depend on the documented state only (no caches / memos)
+    h_, _r = flags.handler_roles(ck, "C04.R1")
+    fresh.reset_only_by_user(ck, "C04.R7")
